@@ -1,7 +1,8 @@
 (* C20 -- schema diffing reports every difference with a severity matching
    client impact.  Statements only; proofs are in Proofs/DifferProofs.v. *)
 From PyGql Require Import Schema.SchemaFull Schema.DifferModel Spec.DifferSpec Spec.DifferClientSpec
-  Proofs.DifferProofs Proofs.DifferEditProofs Proofs.DifferSoundProofs Proofs.DifferClientProofs.
+  Spec.DifferChangeSpec Proofs.DifferProofs Proofs.DifferEditProofs Proofs.DifferSoundProofs
+  Proofs.DifferClientProofs Proofs.DifferTrueProofs.
 From Coq Require Import Permutation.
 
 (* Output positions: when the differ's (repaired) output predicate calls a
@@ -106,6 +107,18 @@ Proof.
 Qed.
 Print Assumptions C20_reportable_exact.
 
+(* No spurious change: every change the differ reports names an element whose
+   description, read by plain lookups ([descr]: kind of the type, membership in
+   the union / interface list / locations, the enum value, the argument, the
+   field's type and deprecation reason, the input field), really differs
+   between the two schemas -- for all 34 change classes.  Together with
+   C20_reflexive: the differ reports nothing for equal schemas and only true
+   differences otherwise.  Hypothesis: unique names (dict keys / validated). *)
+Theorem C20_no_spurious_change : forall o n c,
+  wf_schema o -> wf_schema n -> In c (diff_model o n) -> truthful o n c.
+Proof. intros o n c Ho Hn. apply changes_truthful; assumption. Qed.
+Print Assumptions C20_no_spurious_change.
+
 (* The value-level clause at schema level: when nothing BREAKING is reported,
    every output position present in both schemas is at least as strict as
    before (fields of object and interface types) and every input position at
@@ -132,11 +145,14 @@ Print Assumptions C20_positions_sound.
    ValuesOfCorrectType (literals, enum values, input objects, list coercion),
    VariablesInAllowedPosition, KnownTypeNames / VariablesAreInputTypes
    (variable definitions), KnownTypeNames / FragmentsOnCompositeTypes (type
-   conditions), PossibleFragmentSpreads (inline fragments), KnownDirectives
-   (name, location), at every selection depth.  Each rule is a lemma of its
+   conditions and fragment definitions), PossibleFragmentSpreads (inline
+   fragments and named spreads), KnownDirectives (name, location), at every
+   selection depth, named fragments included.  Each rule is a lemma of its
    own in Proofs/DifferClientProofs.v (rule_*_kept, args_ok_kept, csel_ok_kept).
-   Partial: named fragments and OverlappingFieldsCanBeMerged are not in the
-   document model.  Hypotheses: the new schema has unique member names (it
+   Partial: OverlappingFieldsCanBeMerged is the one schema-dependent rule not
+   in [op_ok] (a field becoming non-null can make two same-key fields of one
+   merged scope conflict); [doc_distinct_keys] is a decidable guard under which
+   that rule has no pair of fields to compare.  Hypotheses: the new schema has unique member names (it
    passed validate()); both schemas agree on the introspection names and on
    the specified directives; same root operation types (roots are not compared
    by the differ and are not an elementary edit of the statement). *)
@@ -151,36 +167,53 @@ Proof.
 Qed.
 Print Assumptions C20_no_breaking_sound_partial.
 
-(* non-vacuity: query ($v: Int!) { f(x: $v) ... on Query { f(x: 3) } } *)
+(* non-vacuity: query ($v: Int!) { f(x: $v) ... on Query { f(x: 3) } ...F }
+                 fragment F on Query { f(x: 3) }
+   (it has the same response key twice in one scope: the guard [doc_distinct_keys]
+   of the one rule left out, OverlappingFieldsCanBeMerged, rejects it, and
+   accepts the document without the inline fragment and the spread) *)
 Definition ex_lit (n : str) (v : value) : bool :=
   match v with VInt => str_eqb n (S "Int") | _ => false end.
+Definition ex_frag : fragment_def := mkFrag (S "F") (S "Query") [] [CField (S "f") [(S "x", VInt)] [] []].
+Definition ex_op (sel : list csel) : operation :=
+  mkOp OQuery [(S "v", (TyNonNull (TyNamed (S "Int")), false))] [] sel [ex_frag].
 Example C20_example_operation :
   let o := ex_schema (TyNamed (S "Int")) in
   op_ok ex_lit o
-    (mkOp OQuery [(S "v", (TyNonNull (TyNamed (S "Int")), false))] []
-       [CField (S "f") [(S "x", VVar (S "v"))] [] [];
-        CInline (Some (S "Query")) [] [CField (S "f") [(S "x", VInt)] [] []]]).
+    (ex_op [CField (S "f") [(S "x", VVar (S "v"))] [] [];
+            CInline (Some (S "Query")) [] [CField (S "f") [(S "x", VInt)] [] []];
+            CSpread (S "F") []])
+  /\ doc_distinct_keys 5 (ex_op [CField (S "f") [(S "x", VVar (S "v"))] [] []; CSpread (S "F") []]) = false
+  /\ doc_distinct_keys 5 (ex_op [CField (S "f") [(S "x", VVar (S "v"))] [] []]) = true.
 Proof.
-  exists (S "Query"). split; [reflexivity|]. split; [vm_compute; discriminate|].
-  split.
-  { constructor; [|constructor]. eexists. split; [vm_compute; reflexivity|]. left; reflexivity. }
-  split; [constructor|].
+  split; [|split; vm_compute; reflexivity].
   assert (Hreq : forall given, In (S "x") (map fst given) ->
             required_args_given [mkArg (S "x") (S "x") (TyNonNull (TyNamed (S "Int"))) None] given).
   { intros given Hin a [<-|[]] _. exact Hin. }
-  constructor; [|constructor; [|constructor]].
-  - simpl. eexists. eexists. split; [split; vm_compute; reflexivity|].
-    split; [|split; [constructor|vm_compute; reflexivity]].
-    split; [|apply Hreq; left; reflexivity].
-    constructor; [|constructor]. eexists. split; [vm_compute; reflexivity|].
-    eapply vo_var; [vm_compute; reflexivity|vm_compute; reflexivity].
-  - simpl. split; [vm_compute; discriminate|]. split.
-    { exists (S "Query"). split; eexists; eexists; eexists; (split; [vm_compute; reflexivity|left; reflexivity]). }
-    split; [constructor|]. split; [|exact I].
-    eexists. eexists. split; [split; vm_compute; reflexivity|].
+  assert (Hov : overlap (ex_schema (TyNamed (S "Int"))) (S "Query") (S "Query")).
+  { exists (S "Query"). split; eexists; eexists; eexists; (split; [vm_compute; reflexivity|left; reflexivity]). }
+  assert (Hlit : forall vars frs, csel_ok ex_lit (ex_schema (TyNamed (S "Int"))) vars frs
+                                     (CField (S "f") [(S "x", VInt)] [] []) (S "Query")).
+  { intros vars frs. simpl. eexists. eexists. split; [split; vm_compute; reflexivity|].
     split; [|split; [constructor|vm_compute; reflexivity]].
     split; [|apply Hreq; left; reflexivity].
     constructor; [|constructor]. eexists. split; [vm_compute; reflexivity|].
     apply vo_non_null; [discriminate|intros x; discriminate|].
-    apply vo_scalar; [vm_compute; reflexivity|vm_compute; reflexivity].
+    apply vo_scalar; [vm_compute; reflexivity|vm_compute; reflexivity]. }
+  exists (S "Query"). split; [reflexivity|]. split; [vm_compute; discriminate|].
+  split.
+  { constructor; [|constructor]. eexists. split; [vm_compute; reflexivity|]. left; reflexivity. }
+  split; [constructor|].
+  split.
+  - constructor; [|constructor; [|constructor; [|constructor]]].
+    + simpl. eexists. eexists. split; [split; vm_compute; reflexivity|].
+      split; [|split; [constructor|vm_compute; reflexivity]].
+      split; [|apply Hreq; left; reflexivity].
+      constructor; [|constructor]. eexists. split; [vm_compute; reflexivity|].
+      eapply vo_var; [vm_compute; reflexivity|vm_compute; reflexivity].
+    + simpl. split; [vm_compute; discriminate|]. split; [exact Hov|].
+      split; [constructor|]. split; [apply (Hlit _ [ex_frag])|exact I].
+    + simpl. exists ex_frag. split; [vm_compute; reflexivity|]. split; [exact Hov|constructor].
+  - constructor; [|constructor]. split; [vm_compute; discriminate|]. split; [constructor|].
+    constructor; [apply (Hlit _ [ex_frag])|constructor].
 Qed.
